@@ -196,7 +196,7 @@ def check_simplify(ctx, t, mt, expr, table, tmask, tjson, observe_pivots=False, 
   elif r is ctx.B.FALSE or r is ctx.B.TRUE:
     ctx.count("simplify_to_constant")
   else:
-    ctx.count("simplify_to_smaller_term")
+    ctx.count("simplify_rebuilt_a_nonconstant_term")
   if ev.malformed(r, deep=True):
     ctx.count("simplify_result_not_flat(observed, not judged)")
   if observe_pivots:
@@ -347,7 +347,7 @@ def child_levels(arg):
 
   arg: universe, hashseed, seed, what in
     'low'      : levels 0..2 with all checks + simplify of every level<=simplify_upto term x all tables
-    'simplify2': simplify of the level-2 terms with index in [lo,hi) x all tables
+    'simplify2': simplify of the level-2 terms with index = shard mod nshards x all tables
     'level3'   : And/Or over pairs of level-2 terms, rows i = shard mod nshards (ordered: all j;
                  else j >= i, argument order by parity) + simplify of every result x all tables
                  (simplify_all) or of every simplify_every-th pair against one table
@@ -376,7 +376,7 @@ def child_levels(arg):
       todo = [i for i in range(n) if upto >= 2 or in1[i]]
       dense = True
     else:
-      todo = [i for i in range(arg["lo"], min(arg["hi"], n)) if not in1[i]]   # level<=1: done by 'low'
+      todo = [i for i in range(arg["shard"], n, arg["nshards"]) if not in1[i]]   # level<=1: done by 'low'
       dense = False
     for i in todo:
       observe_equalities(ctx, T[i])
@@ -861,13 +861,11 @@ def _tasks(tier, seed):
   # --- 3x3 universe: levels 0-2 complete with all 343 tables
   for hs in HASHSEEDS:
     add({"universe": "3x3", "what": "low", "count_nontrivial": hs == "0"}, f"3x3/low/hs{hs}", hs)
-  n2 = 16200                      # upper bound for the index range; children clip to the real size
   nsh = 15 if quick else 16
-  per = (n2 + nsh - 1) // nsh
   for s in range(nsh):
     seeds = [HASHSEEDS[s % 3]] if quick else HASHSEEDS
     for hs in seeds:
-      add({"universe": "3x3", "what": "simplify2", "lo": s * per, "hi": (s + 1) * per,
+      add({"universe": "3x3", "what": "simplify2", "shard": s, "nshards": nsh,
            "count_nontrivial": hs == seeds[0]}, f"3x3/simplify2/{s}/hs{hs}", hs)
   # --- 3x3 level 3
   if quick:
